@@ -390,9 +390,21 @@ def eval_twice(i: int, j: int, how: str, tally: Tally):
     fails = []
     try:
         o = bp.K()
+        first = None
         if how == "parse":
             o.parse(d1)
             o.parse(d2)
+        elif how in ("copy-then-parse", "deepcopy-then-parse"):
+            # decoding more input into a COPY: the copy ends up like an instance that decoded both,
+            # the original still re-emits exactly what it decoded
+            import copy as _copy
+            first = bp.K().parse(d1)
+            before = bytes(first)
+            o = _copy.copy(first) if how == "copy-then-parse" else _copy.deepcopy(first)
+            o.parse(d2)
+            if bytes(first) != before or len(first) != len(before):
+                return [("twice-copy-shares-unknown", f"decoding into the {how.split('-')[0]} changed the original: "
+                         f"{before.hex()} -> {bytes(first).hex()} (len() {len(first)})")]
         else:
             s = io.BytesIO(wire.delimited(d1) + wire.delimited(d2))
             o.load(s, betterproto.SIZE_DELIMITED)
@@ -462,7 +474,7 @@ def run(ctx: Ctx) -> None:
     n_in = len(twice_inputs())
     for i in range(n_in):
         for j in range(n_in):
-            for how in ("parse", "load"):
+            for how in ("parse", "load", "copy-then-parse", "deepcopy-then-parse"):
                 te.inc("cases")
                 for oracle, detail in eval_twice(i, j, how, te):
                     te.violate(Violation(["decode-twice", oracle, how], f"inputs {wire.join(twice_inputs()[i][1]).hex()} then "
